@@ -224,3 +224,36 @@ func init() {
 	pool.Register("text", handleText)
 	pool.Register("fmt", handleFmt)
 }
+
+// ---------------------------------------------------------------------------------------------
+// "texthist": ONE text variable, observed before and after text methods are called on it.  Every
+// observation row is logged; the driver has TLC validate the rows against Trace_ZnText.
+
+type textHistCase struct {
+	Text  string   `json:"text"`
+	Calls []string `json:"calls"` // method call texts, e.g. "转换数值" or "替换：“1”、“2”"
+}
+
+func handleTextHist(raw json.RawMessage) interface{} {
+	var c textHistCase
+	if err := json.Unmarshal(raw, &c); err != nil {
+		return map[string]interface{}{"obs": "harness-error", "detail": err.Error()}
+	}
+	var sb strings.Builder
+	sb.WriteString("输入甲\n")
+	sb.WriteString("如何样？\n    输出以甲（取样：1、甲之长度）\n    拦截异常：\n        输出空\n\n")
+	for k, call := range c.Calls {
+		fmt.Fprintf(&sb, "如何试%d？\n    输出以甲（%s）\n    拦截异常：\n        输出空\n\n", k+1, call)
+	}
+	row := "（显示：甲之长度、甲之字数、甲之字符组、{以甲（分隔：“”）}、（样）、甲）\n"
+	sb.WriteString(row)
+	for k := range c.Calls {
+		fmt.Fprintf(&sb, "（试%d）\n", k+1)
+		sb.WriteString(row)
+	}
+	sb.WriteString("输出1\n")
+	o := zn.RunScript(sb.String(), r.ElementMap{"甲": value.NewString(c.Text)})
+	return map[string]interface{}{"obs": o.Obs, "display": o.Display, "msg": lastLine(o.Msg), "src": sb.String()}
+}
+
+func init() { pool.Register("texthist", handleTextHist) }
